@@ -313,3 +313,23 @@ fn same_type_families(seed: u32) {
 fn c14_same_type_families() {
     same_type_families(0);
 }
+
+//@ id: c07_gather_single_collector_minimal
+//@ prop: C07
+//@ tier: off
+//@ strength: bounded(one collector, one unlabelled sample, no prefix, no common labels)
+//@ fn: registry::RegistryCore::gather
+//@ obligation: (feasibility probe) one family with the collector's sample, help and type
+#[kani::proof]
+#[kani::unwind(4)]
+#[kani::stub(alloc::fmt::format, stub_format)]
+fn c07_gather_single_collector_minimal() {
+    coll::set_order_seed(0);
+    let v1: f64 = kani::any();
+    let mut r = RegistryCore::default();
+    r.collectors_by_id.insert(1, one("a", 1, MetricType::COUNTER, v1, "x"));
+    let out = r.gather();
+    assert!(out.len() == 1 && out[0].name() == "a" && out[0].get_field_type() == MetricType::COUNTER, "C07.gather: single family");
+    assert!(out[0].get_metric().len() == 1 && out[0].get_metric()[0].get_counter().get_value().to_bits() == v1.to_bits(), "C07.gather: sample");
+    core::mem::forget((r, out));
+}
